@@ -282,7 +282,10 @@ class Ctx(object):
         import numpy as np
         a = self.num()
         if isinstance(a, complex):
-            return a if self.rng.random() < 0.8 else np.complex128(a)
+            u = self.rng.random()
+            return a if u < 0.7 else (np.complex128(a) if u < 0.85 else np.complex64(a))
+        if a in (0, 1) and self.rng.random() < 0.12:
+            return bool(a)                      # `A * True`: bool is an int, hence a Number and a Real
         u = self.rng.random()
         if float(a) == int(a) and u < 0.35:
             return int(a)
@@ -1097,17 +1100,13 @@ def measure_variant():
         vecsum = type(o).__name__ == 'OperatorVectorSum'
     except TypeError:
         vecsum = False
-    import numpy as np
-    c2 = odl.cn(2)
-    realonly = type(odl.MatrixOperator(np.eye(2, dtype=complex), domain=c2, range=c2) * 1j).__name__ \
-        == 'OperatorRightScalarMult'
-    return frvec, vecsum, realonly
+    return frvec, vecsum
 
 
 def correspondence(rng, tier):
-    frvec, vecsum, realonly = measure_variant()
-    prelude = ('Definition vt_now : variant := {| v_frvec_lin := %s; v_vecsum_field := %s; v_real_shortcut := %s |}.'
-               % (C.b(frvec), C.b(vecsum), C.b(realonly)))
+    frvec, vecsum = measure_variant()
+    prelude = ('Definition vt_now : variant := {| v_frvec_lin := %s; v_vecsum_field := %s |}.'
+               % (C.b(frvec), C.b(vecsum)))
     cs = C.CaseSet('real', ['Base.Vec', 'C04.Model', 'C04.Corr'], 'check_real', 'case Q', prelude=prelude)
     n = 900 if tier == 'quick' else 7500
     maxd = 4 if tier == 'quick' else 7
@@ -1464,7 +1463,9 @@ def _mixed_gen(rng, depth, df, rf):
         return ('mul', _mixed_gen(rng, 0, mid, rf), _mixed_gen(rng, 0, df, mid))
     k = rng.choice(['mul', 'mul', 'add', 'sub', 'mulc', 'cmul', 'addc', 'neg', 'mulv', 'vmul', 'addv', 'divc'])
     d1 = depth - 1
-    sc = lambda: rng.choice([2.0, -1.0, 0.5, 3, 1j, 1 - 1j, 2 + 0j])
+    import numpy as np
+    sc = lambda: rng.choice([2.0, -1.0, 0.5, 3, 1j, 1 - 1j, 2 + 0j, np.complex64(1j), np.float32(2), True,
+                             np.complex128(1 + 1j), np.int64(-2)])
     vec = lambda f: [rng.randint(-2, 2) + (1j * rng.randint(-1, 1) if f == 'C' else 0) for _ in range(2)]
     if k == 'mul':
         mid = rng.choice('RC')
@@ -1681,7 +1682,7 @@ def mixed_probes(rng, n):
         if res[0] == 'accepts-ill-typed' and ft[0] in ('mulc', 'divc'):
             # A * a with a complex a and a real domain: accepted when A is linear with a complex range
             key = 'mixed-field:complex-right-scalar-on-real-domain-accepted-for-linear'
-        if res[0] in ('value', 'value-inplace') and ft[0] in ('mulc', 'divc') and isinstance(ft[2], complex):
+        if res[0] in ('value', 'value-inplace') and ft[0] in ('mulc', 'divc') and not _mx_isreal(ft[2]):
             # A * a rewritten to a * A for an A that is flagged linear but only REAL-linear (it contains
             # RealPart / ImagPart): wrong value for a complex a
             key = 'mixed-field:complex-right-scalar-shortcut-on-real-linear-operator'
@@ -1689,6 +1690,71 @@ def mixed_probes(rng, n):
               "ok, observed, expected = H.mixed_replay(%r, %r)\n" % (C.VERIF, ft, fx))
         out.append(C.Probe(False, key, '%s: %s on %s' % (res[0], res[1], _mixed_skel(ft)), rp))
     return out
+
+
+def _deriv_pool():
+    import numpy as np
+    import odl
+    r2, c2 = odl.rn(2), odl.cn(2)
+    return {
+        'Power2/rn': (lambda: odl.PowerOperator(r2, 2), 'R', lambda y, d: 2 * y * d),
+        'Power3/rn': (lambda: odl.PowerOperator(r2, 3), 'R', lambda y, d: 3 * y * y * d),
+        'Power2/cn': (lambda: odl.PowerOperator(c2, 2), 'C', lambda y, d: 2 * y * d),
+        'Re.Power2/cn': (lambda: odl.RealPart(c2) * odl.PowerOperator(c2, 2), 'C', lambda y, d: (2 * y * d).real + 0j),
+        'Im.Power3/cn': (lambda: odl.ImagPart(c2) * odl.PowerOperator(c2, 3), 'C',
+                         lambda y, d: (3 * y * y * d).imag + 0j),
+        'Emb.Power2/rn': (lambda: odl.ComplexEmbedding(r2) * odl.PowerOperator(r2, 2), 'R', lambda y, d: 2 * y * d),
+        'Matrix+v/cn': (lambda: odl.MatrixOperator(np.array([[1j, 2.], [1., 1 - 1j]])) + c2.element([1, 1j]), 'C',
+                        lambda y, d: np.array([[1j, 2.], [1., 1 - 1j]]).dot(d)),
+    }
+
+
+def rscal_derivative_check(name, s, x, d):
+    """((A * s).derivative(x))(d) == A'(s x)(s d): analytic chain rule and odl's own A.derivative"""
+    import numpy as np
+    mk, fld, dA = _deriv_pool()[name]
+    A = mk()
+    xe = A.domain.element(np.array(x) if fld == 'C' else np.array(x).real)
+    de = A.domain.element(np.array(d) if fld == 'C' else np.array(d).real)
+    expected = np.asarray(dA(s * np.asarray(xe).astype(complex), s * np.asarray(de).astype(complex))).astype(complex)
+    try:
+        B = A * s
+        D = B.derivative(xe)
+        observed = np.asarray(D(de)).astype(complex)
+        own = np.asarray(A.derivative(s * xe)(s * de)).astype(complex)
+    except Exception as e:   # noqa
+        return False, '%s: %s' % (type(e).__name__, str(e)[:120]), expected.tolist()
+    ok = bool(np.allclose(observed, expected, rtol=1e-12, atol=1e-12) and
+              np.allclose(own, expected, rtol=1e-12, atol=1e-12) and D.is_linear and
+              D.domain == A.domain and D.range == A.range)
+    return ok, observed.tolist(), expected.tolist()
+
+
+def rscal_derivative_probes(rng):
+    import numpy as np
+    out = []
+    reals = [2.0, -0.5, 3, np.float32(2), np.int64(-2), True, 0.0]
+    cplx = [1j, 1 - 1j, 2 + 0j, np.complex64(1j), np.complex128(0.5 - 1j)]
+    for name, (mk, fld, _) in sorted(_deriv_pool().items()):
+        for s in reals + (cplx if fld == 'C' else []):
+            x = [complex(rng.randint(-2, 2), rng.randint(-2, 2) if fld == 'C' else 0) for _ in range(2)]
+            d = [complex(rng.randint(-2, 2), rng.randint(-2, 2) if fld == 'C' else 0) for _ in range(2)]
+            ok, obs, exp = rscal_derivative_check(name, s, x, d)
+            kind = 'complex-scalar' if not _mx_isreal(s) else 'real-scalar'
+            rp = ("import sys, numpy as np\nsys.path.insert(0, %r)\nfrom harness import c04 as H\n"
+                  "ok, observed, expected = H.rscal_derivative_check(%r, %s, %r, %r)\n"
+                  % (C.VERIF, name, _scalar_src(s), x, d))
+            out.append(C.Probe(ok, 'rscal-derivative:%s:%s' % (name, kind),
+                               '((%s * %r).derivative(x))(d) == A\'(s x)(s d)' % (name, s), rp,
+                               {'observed': obs, 'expected': exp}))
+    return out
+
+
+def _scalar_src(s):
+    import numpy as np
+    if isinstance(s, np.generic):
+        return 'np.%s(%r)' % (type(s).__name__, s.item())
+    return repr(s)
 
 
 def _registry():
@@ -1835,12 +1901,13 @@ def probes(rng, tier):
     forms = {'A/v': 'A / v', 'A/B': 'A / A', 'v/A': 'v / A', '2/A': '2.0 / A', 'A**2.5': 'A ** 2.5', 'A**A': 'A ** A',
              'A**0': 'A ** 0', 'A+str': 'A + "s"', 'A*str': 'A * "s"', 'A*None': 'A * None', 'None*A': 'None * A',
              'A*1j': 'A * 1j', '1j*A': '1j * A', 'A+1j': 'A + 1j', 'A/1j': 'A / 1j', 'A-1j': 'A - 1j',
-             'A*w': 'A * w', 'w*A': 'w * A' , 'A+w': 'A + w'}
+             'A*w': 'A * w', 'w*A': 'w * A' , 'A+w': 'A + w',
+             'np.bool_*A': 'np.bool_(True) * A'}     # (A * np.bool_(True) is turned into A * True by NumPy)
     for oname, A in sorted(ops.items()):
         for fname, src in sorted(forms.items()):
             if oname == 'functional' and fname == 'w*A':
                 continue          # w * f is FunctionalLeftVectorMult for any w: well-typed
-            env = {'A': A, 'v': r2.element([1, 2]), 'w': odl.rn(3).element([1, 2, 3])}
+            env = {'A': A, 'v': r2.element([1, 2]), 'w': odl.rn(3).element([1, 2, 3]), 'np': np}
             try:
                 eval(src, env)
                 ok, obs = False, 'no exception'
@@ -1858,6 +1925,8 @@ def probes(rng, tier):
                      oname, src))
             out.append(C.Probe(ok, 'illtyped-operand:%s:%s' % (fname, oname),
                                '%s with A %s must be rejected (got %s)' % (src, oname, obs), rp))
+    # 2c. derivative of a right scalar multiple against the chain rule  d -> A'(s x)(s d)
+    out += rscal_derivative_probes(rng)
     # 3. the premise of the A*a -> a*A rewrite on odl's own classes
     for name, mk in _registry():
         try:
